@@ -220,6 +220,10 @@ class Ctx:
             'known_findings_reported': list(self.known_lines),
         }
         evdir = os.environ.get('VMC_EVIDENCE_DIR') or os.path.join(ROOT, 'evidence')   # scratch dir for seeded-change runs
+        if self.only and not os.environ.get('VMC_EVIDENCE_DIR'):
+            # a run restricted to some sections (--only, debugging) describes less than the registered check covers:
+            # it never replaces the evidence file of the property
+            evdir = '/var/tmp/vmc_partial_evidence'
         os.makedirs(evdir, exist_ok=True)
         path = os.path.join(evdir, self.pid + '.json')
         tmp = path + '.tmp'
